@@ -33,6 +33,19 @@ def table(x, ep=False):
     return sorted(tuple(Fraction(float(v)) for v in row) for row in c)
 
 
+def exact64(vals):
+    """every value, and the sum / difference / mean of any two values, is exact in binary64"""
+    vals = [Fraction(v) for v in vals]
+    if any(v.denominator & (v.denominator - 1) for v in vals):
+        return False
+    nz = [abs(v) for v in vals if v != 0]
+    if not nz:
+        return True
+    unit = min(Fraction(v.numerator & -v.numerator, v.denominator) for v in nz)   # largest 2^k dividing every value
+    top = max(nz)
+    return 4 * top / unit < 2 ** 53 and Fraction(1, 2 ** 900) < unit and top < 2 ** 900
+
+
 def is_f8b_shape(seq):
     """F8b: `find_reversals` treats a plateau as ascending, so a plateau next to a descent gets flagged although it is no
     turning point.  `reversals(…, endpoints=True)` drops such points again unless one of them is the first or last
@@ -224,6 +237,16 @@ def run(chk):
         a = Fraction(rng.choice([1, 2, 4, -1, -2]), rng.choice([1, 2, 4]))
         b = Fraction(rng.choice([rng.randint(-8, 8), rng.randint(-8, 8), 2 ** 31, -2 ** 35, 2 ** 40 + 3]))   # all exact in binary64
         t = [a * v + b for v in s]
+        # the property speaks of transformations that are exact in floating point: series with very fine or very large
+        # values (near-ties, 2^+-80 magnitudes) cannot take every shift; fall back to a small shift, then to none
+        for b2 in (Fraction(rng.randint(-8, 8)), Fraction(0)):
+            if exact64(t + s):
+                break
+            b = b2
+            t = [a * v + b for v in s]
+        if not exact64(t + s):
+            a, b = Fraction(rng.choice([1, -1])), Fraction(0)
+            t = [a * v for v in s]
         tlines.append("rf.count 0 " + " ".join(rat(v) for v in t))
         tmeta.append((s, a, b, t))
     touts = drv.run(tlines)
